@@ -163,9 +163,14 @@ func properties() map[string]*propDef {
 					out = append(out, item{Harness: "H_C14", Cfg: []int{g.idx, 1, 0}, Label: "generated root-path table, RouterJSR311"})
 				}
 			}
+			for router := 0; router < 2; router++ {
+				for mode := 0; mode < 3; mode++ {
+					out = append(out, item{Harness: "H_C14_seq", Cfg: []int{router, mode}, Label: "p and p/ after a history: optional earlier requests for p and p/, then routes added to the WebService (mode 0: without dynamic routes, 1: with, 2: with, and one removed); router, mode"})
+				}
+			}
 			return out
 		},
-		Bounds:         map[string]interface{}{"path_bytes": 11, "segments": 3, "method_bytes": 7, "tables": nCoreTables},
+		Bounds:         map[string]interface{}{"path_bytes": 11, "segments": 3, "method_bytes": 7, "tables": nCoreTables, "history": "H_C14_seq: 0-2 earlier requests, then 3 routes added (1 removed), path 9 bytes"},
 		Assumptions:    commonAssumptions,
 		Rule:           "core route tables x routers; product of two dispatches: symbolic path p (no trailing slash, some non-empty segment) and p+\"/\", symbolic method",
 		RequiredCovers: []string{"invoked", "not-invoked"},
@@ -235,7 +240,8 @@ func properties() map[string]*propDef {
 					out = append(out, item{Harness: "H_C03", Cfg: []int{g.idx, router, 1}, Label: "generated table, routes registered in reverse order"})
 				}
 			}
-			for _, g := range genRootSample(tier, seed, 12, func(g genRootInfo) bool { return !g.single }) {
+			// the order product is cheap: every pair of root paths, in both tiers
+			for _, g := range genRootSample("thorough", seed, 12, func(g genRootInfo) bool { return !g.single }) {
 				out = append(out, item{Harness: "H_C03", Cfg: []int{g.idx, 0, 1}, Label: "generated root-path table, WebServices registered in reverse order"})
 				if g.literal {
 					out = append(out, item{Harness: "H_C03", Cfg: []int{g.idx, 1, 1}, Label: "generated root-path table (literal roots), RouterJSR311"})
@@ -283,7 +289,7 @@ func properties() map[string]*propDef {
 			"method_bytes": 7, "access_control_request_method_bytes": 4},
 		Assumptions:    append([]string{"AllowedDomainFunc ranges over the predicates 'equals s' for a symbolic string s (uninterpreted predicates are not expressible in QF_BV)"}, commonAssumptions...),
 		Rule:           "CORS filter as container filter in front of a marker filter and a 3-route service, plus a filter-less twin; Origin, allowed-domain entries, predicate string, cookies flag, method and requested method symbolic",
-		RequiredCovers: []string{"allowed", "refused", "granted", "not-granted", "inner-refuses", "inner-allows"},
+		RequiredCovers: []string{"allowed", "refused", "granted", "not-granted", "inner-refuses", "inner-allows", "predicate-changed-its-mind"},
 	}
 	m["C09"] = &propDef{
 		ID: "C09",
@@ -470,6 +476,9 @@ func properties() map[string]*propDef {
 						variants = append(variants, 25+len(ops)) // the same with dynamic routes switched on only before the first route change
 					}
 				}
+				if last := ops[len(ops)-1]; len(ops) >= 3 && last >= 70 && last < 90 {
+					variants = append(variants, len(ops)) // GET probe sent right before the final RemoveRoute as well
+				}
 				if tier == "thorough" {
 					variants = append(variants, 1+(nhist*7+seed+5)%19, 10+len(ops))
 				}
@@ -494,6 +503,11 @@ func properties() map[string]*propDef {
 				add(0, 10+i, 50+i, 70+i, 110+i) // a route replaced by another one: the number of routes is the same again
 				add(0, 10+i, 110+i, 50+i)
 				add(0, 10+i, 90)
+				if i == 1 || i == 5 || tier == "thorough" {
+					// route changes under RouterJSR311 as well
+					add(1, 10+i, 50+i, 70+i)
+					add(1, 10+i, 50+i, 70+i, 110+i)
+				}
 				for j := 0; j < n; j++ {
 					if i == j {
 						continue
@@ -592,12 +606,12 @@ func properties() map[string]*propDef {
 				pre = 3
 			}
 			for prov := 0; prov < 3; prov++ {
-				for kind := 0; kind < 7; kind++ {
+				for kind := 0; kind < 10; kind++ {
 					for _, nt := range threads {
 						if nt == 3 && kind >= 3 {
 							continue
 						}
-						out = append(out, item{Harness: "H_C13_sched", Cfg: []int{prov, nt, kind, pre}, Label: "interleaving exploration: provider, threads, kind (gzip writer, zlib writer, gzip reader: acquire-work-release; 3/4: encoded responses through a container via Dispatch, gzip/deflate; 5/6: via ServeHTTP), preemption bound"})
+						out = append(out, item{Harness: "H_C13_sched", Cfg: []int{prov, nt, kind, pre}, Label: "interleaving exploration: provider, threads, kind (gzip writer, zlib writer, gzip reader: acquire-work-release; 3/4: encoded responses through a container via Dispatch, gzip/deflate; 5/6: via ServeHTTP; 7-9: as 0-2 after a sequential burst of acquisitions and releases that overflows the cache), preemption bound"})
 					}
 				}
 			}
@@ -622,7 +636,7 @@ func properties() map[string]*propDef {
 			"'never hands out an object still in use' and 'concurrent encoded responses each decode to their own payload' are decided on the value level by bounded interleaving exploration (DESIGN 2.8b) with switch points at provider calls (each call of the shipped providers performs one channel or pool operation) and lock acquisitions; interleavings inside one provider call are left to the event-order queries",
 			"a blocked-forever schedule is confirmed natively by running the threads up to 400 times with a watchdog"}, commonAssumptions...),
 		Rule:           "bounded cache: capacity x initial fill x thread count x object kind, all schedules decided by one stuck-state query per combination of thread paths; sequential: ledger over encoded responses and request decoding for all three providers",
-		RequiredCovers: []string{"threads-analysed", "ran", "read", "encoded"},
+		RequiredCovers: []string{"threads-analysed", "ran", "read", "encoded", "after-a-burst"},
 	}
 	m["C12"] = &propDef{
 		ID: "C12",
